@@ -330,6 +330,25 @@ func runThorough(id, repo, verif string) map[string]interface{} {
 	if id == "C12" {
 		out["generic_tools"] = crossRef(repo)
 	}
+	// behaviour-preserving edits applied to the whole module at once: the property's rules must stay silent
+	sweeps := map[string]interface{}{"what": "each sweep applies one behaviour-preserving edit to EVERY function of the module in memory (a no-op statement first / before every statement / before every return; every local, parameter and named result renamed) and re-runs the property's rules: a report here is a brittleness of a rule, not a violation of the property"}
+	self, _ := os.Executable()
+	for _, kind := range []string{"noop-first", "noop-each", "noop-before-return", "rename-locals"} {
+		cmd := exec.Command(self, "sweep", kind)
+		cmd.Env = append(os.Environ(), "NPVERIF_SWEEP_PROP="+id, "NPVERIF_REPO="+repo, "NPVERIF_DIR="+verif)
+		b, _ := cmd.CombinedOutput()
+		lines := strings.Split(strings.TrimSpace(string(b)), "\n")
+		last := lines[len(lines)-1]
+		entry := map[string]interface{}{"result": last}
+		if len(lines) > 1 {
+			if len(lines) > 6 {
+				lines = lines[:6]
+			}
+			entry["reports"] = lines[:len(lines)-1]
+		}
+		sweeps[kind] = entry
+	}
+	out["benign_sweeps"] = sweeps
 	out["sensitivity"] = map[string]interface{}{
 		"what":     "sensitivity: each variant is a small edit of the current sources applied in memory (go/packages overlay); the rules must report it. Survivors are gaps of the checker, not violations of the property; benign variants must stay silent.",
 		"variants": res,
